@@ -89,6 +89,15 @@ let handle toks =
            Printf.sprintf "%s src=%s dst=%s trace=%s" (show_unit_res res) (show_dir (lookup p_SRC fin))
              (show_dir (lookup p_DST fin)) (classify s newd tr)
        | _ -> "BAD")
+  | "rechunker_same" :: rest ->
+      (match ints rest with
+       | comp :: tgt :: rechunk :: md_comp :: md_target :: k :: r ->
+           let cs, _ = parse_chunks k r in
+           let s = c16_store_of (z_of_int 1) (z_of_int 1) (z_of_int md_comp) (z_of_int md_target) cs in
+           let tr, res = c16_rechunker_same s (optz comp) (optz tgt) (rechunk <> 0) in
+           let fin = last_or [] tr in
+           Printf.sprintf "%s src=%s" (show_unit_res res) (show_dir (lookup p_SRC fin))
+       | _ -> "BAD")
   | "onload" :: rest ->
       (match ints rest with
        | tgt :: md_comp :: md_target :: nsel :: r ->
